@@ -154,11 +154,13 @@ pub fn record_ms(seed: u64, thorough: bool, path: &str) -> Value {
     let mut out = TraceOut::new();
     let mut queries = 0usize;
     let objects = if thorough { 30 } else { 8 };
-    for o in 0..(objects + 1) {
-        // the last object is heavily overfull: the zeros of `high` then form long select superblocks
+    for o in 0..(objects + 2) {
+        // the last two objects are heavily overfull: the zeros of `high` then form long select superblocks - a single one
+        // (48 buckets), and a long one followed by another superblock (more than 4096 buckets under 150 000 values)
         let heavy = o == objects;
-        let m = if heavy { 0 } else if thorough { rng.range(50, 5000) } else { rng.range(50, 900) };
-        let universe = if heavy { 48 } else { match o % 5 { 0 => rng.range(1, 20), 1 => rng.range(m / 4 + 1, m), 2 => rng.range(1 << 10, 1 << 14), 3 => rng.range(1 << 18, 1 << 24), _ => rng.range(100, 5000) } };
+        let heavy2 = o == objects + 1;
+        let m = if heavy || heavy2 { 0 } else if thorough { rng.range(50, 5000) } else { rng.range(50, 900) };
+        let universe = if heavy { 48 } else if heavy2 { 9000 + rng.below(500) } else { match o % 5 { 0 => rng.range(1, 20), 1 => rng.range(m / 4 + 1, m), 2 => rng.range(1 << 10, 1 << 14), 3 => rng.range(1 << 18, 1 << 24), _ => rng.range(100, 5000) } };
         // long duplicate runs next to bucket boundaries, duplicates at 0 and at universe - 1
         let mut vals: Vec<usize> = Vec::new();
         let dup0 = rng.range(0, 6);
@@ -170,6 +172,7 @@ pub fn record_ms(seed: u64, thorough: bool, path: &str) -> Value {
         }
         for _ in 0..rng.range(0, 5) { vals.push(universe - 1); }
         if heavy { vals = (0..universe).flat_map(|v| std::iter::repeat(v).take(2300 + (v * 13) % 400)).collect(); }
+        if heavy2 { vals = (0..universe).flat_map(|v| std::iter::repeat(v).take(if v % 3 == 0 { 0 } else { 20 + (v * 7) % 9 })).collect(); }
         vals.sort();
         let route = ["set", "try_set", "extend"][o % 3];
         let sv = match guarded(|| build(route, universe, &vals)) { Ok(Ok(v)) => v, _ => { out.push(json!({"e": "def", "universe": universe, "vals": vals, "route": route, "built": "FAILED"})); continue; } };
